@@ -341,10 +341,25 @@ func TestC02Relay(t *testing.T) {
 // unless it really returns". A node leaves (or crashes), every survivor forgets
 // it while the survivors keep gossiping among themselves, and then a new
 // incarnation with the same id and address and an empty state joins.
+const returnRule = "directed lifecycle generator on 2-4 real nodes in virtual time: warm-up writes and full exchanges; one node leaves gracefully (notifying a drawn subset of its peers) or crashes; after a first silence of 2-45 s the survivors keep exchanging every 2 virtual seconds, evaluate liveness (before or after gossiping) and sweep until all of them have forgotten it; once one survivor knows of the leave, all survivors that still list the node see it as left within 4 rounds (a crash whose victim is re-introduced by finding F2 ends the case there); a new incarnation with the same id and an empty state writes, joins through a drawn survivor, and liveness evaluations, short silences, writes and exchanges are interleaved; oracle after every atomic action: I1-I6 incl. 'a peer learned recently and not heard from since is not unreachable' (nothing about the earlier incarnation may survive its expiry), and finally every survivor sees the returned node as live in gossip and as active in the routing table; non-trivial = the node returned"
+
 func TestC11Return(t *testing.T) {
-	vlib.SetRule("C11", "TestC11Return", "directed lifecycle generator on 2-4 real nodes in virtual time: warm-up writes and full exchanges; one node leaves gracefully (notifying a drawn subset of its peers) or crashes; after a first silence of 2-45 s the survivors keep exchanging every 2 virtual seconds, evaluate liveness (before or after gossiping) and sweep until all of them have forgotten it; once one survivor knows of the leave, all survivors that still list the node see it as left within 4 rounds (a crash whose victim is re-introduced by finding F2 ends the case there); a new incarnation with the same id and an empty state writes, joins through a drawn survivor, and liveness evaluations, short silences, writes and exchanges are interleaved; oracle after every atomic action: I1-I6 incl. 'a peer learned recently and not heard from since is not unreachable' (nothing about the earlier incarnation may survive its expiry), and finally every survivor sees the returned node as live in gossip and as active in the routing table; non-trivial = the node returned")
-	p := &Profile{Prop: "C11", Oracles: map[string]bool{"C11": true}}
-	vlib.RunSync(t, "C11", func(c *vlib.Case) {
+	vlib.SetRule("C11", "TestC11Return", returnRule)
+	runReturn(t, "C11")
+}
+
+// TestC12Return claims the same scenario for C12: whatever the failure detector
+// knew about an earlier incarnation of a node id is gone once that node has been
+// forgotten - arrivals older than the window (here: older than the node itself)
+// have no influence on the level of the returned node.
+func TestC12Return(t *testing.T) {
+	vlib.SetRule("C12", "TestC12Return", "the detector's memory across incarnations of a node id: "+returnRule)
+	runReturn(t, "C12")
+}
+
+func runReturn(t *testing.T, prop string) {
+	p := &Profile{Prop: prop, Oracles: map[string]bool{"C11": true}}
+	vlib.RunSync(t, prop, func(c *vlib.Case) {
 		N := c.Int("nodes", 2, 4)
 		s := NewN(c, p, N)
 		all := func(f func(a, b *Node)) {
